@@ -124,6 +124,7 @@ type FS struct {
 	crashRng   *simrt.Rand
 	completed  int
 	injected   int // number of error/short fault rules that have fired
+	stalled    int // number of stall / stall_ret rules that have fired
 	Crashed    bool
 	wsync      byte // released by mutating calls, acquired by every call
 	rsync      byte // release-merged by read-only calls, acquired by mutating calls
@@ -216,6 +217,15 @@ func (f *FS) Injected() int {
 	return f.injected
 }
 
+// Stalled returns how many stall rules have fired so far.
+//
+//go:norace
+func (f *FS) Stalled() int {
+	f.hlock()
+	defer f.hunlock()
+	return f.stalled
+}
+
 // ClearFaults removes all fault rules.
 //
 //go:norace
@@ -273,6 +283,9 @@ func (v *View) begin(c *Call) (*Call, *Fault) {
 				hit = r
 			}
 		}
+	}
+	if hit != nil && (hit.Kind == "stall" || hit.Kind == "stall_ret") {
+		f.stalled++
 	}
 	if hit != nil && hit.Kind != "stall" && hit.Kind != "stall_ret" {
 		f.injected++
